@@ -311,7 +311,11 @@ CLAIMED = {
         "ve_get_spec (one per-bit record = one symbol of the packed vector; every dispatch carries the packed form of the vector's "
         "symbols); time_step_spec (the buffer's schedule over a whole time step: an untouched vector hands the store nothing, every value "
         "handed over is the vector's symbols at that moment, the last value handed over for a touched vector is its final symbols - the "
-        "per-bit records written in order, first declared element leftmost -, no vector stays marked); add_n_bit_change_entry, "
+        "per-bit records written in order, first declared element leftmost -, no vector stays marked); cycle_signals_vectors / "
+        "cycle_vectors_step (from the bytes: the records `LEB128 distance, value byte` of a cycle that address elements of std_logic / bit "
+        "vectors make exactly those per-bit updates, in file order, signal index = running sum of the distances minus one, symbol = "
+        "STD_LOGIC_LUT code of the byte; composed with time_step_spec) and cycle_loop_vectors (a whole run of such cycles with their signed "
+        "LEB128 time distances hands the store per cycle its time stamp and that step's trace); add_n_bit_change_entry, "
         "check_min_state_spec, compress_template_spec (store side of the raw path). Not proved: "
         "that the history is the one GHDL meant, "
         "the header / string / type / hierarchy sections. Those are decided by running: the extracted model against "
@@ -328,15 +332,20 @@ CLAIMED = {
    text="Coq theorems pinned in Properties/C12.v: vcd_fst_same_report / vcd_fst_same_report_rs (the wavemem store fed VCD text and the FST "
         "signal writer report the same for the same values: bit vectors, reals, strings) and same_meaning_same_report (VCD text changes "
         "and pre-packed raw changes - what the GHW reader delivers - that mean the same symbols at the same time indices are reported "
-        "identically, whatever the segmentation of either store). Not proved: that the GHW section reader / vector buffer delivers the "
-        "packed form of what a file encodes, hierarchies and time tables of whole files. Those are decided by running: one abstract "
+        "identically, whatever the segmentation of either store); vcd_fst_same_calls / vcd_fst_same_tree (the tree clause for VCD and "
+        "FST: one list of declarations, declared by VCD header commands and by FST hierarchy entries, makes the two front ends call the "
+        "builder identically up to component and direction, hence - hier_run_erase: the builder never looks at either - the two "
+        "hierarchies have the same scopes and variables with the same names, kinds, widths, bit ranges and signals, linked into the same "
+        "tree in the same order; enc_classes_agree: every FST type code but RealParameter is stored as its VCD counterpart). Not "
+        "proved: the GHW hierarchy (its section reader is not modelled), that the GHW section reader / vector buffer delivers the "
+        "packed form of what a file encodes, time tables of whole files. Those are decided by running: one abstract "
         "value history per variable through the three value paths, each on the real code and on its Gallina model (exhaustive widths "
         "1..24 x kind orders, random to width 130); complete VCD, FST and GHW files generated from one design (common subset plus "
         "scenarios: several vectors written in one step, kind orders for every width residue, a vector idle for > 16384 steps, multi- "
         "and single-threaded) whose listings must be equal and equal to the design; all corpus waveforms existing in two formats.",
    design_ref="DESIGN.md section 6, C12 and sections 12.5, 12.7",
    note="Trusted: Coq kernel, extraction (ExtrOcamlBasic), OCaml driver, Rust harness, Python generators/oracles incl. the three file writers. Corpus twins come from third-party converters; three documented conversion artefacts are excluded.",
-   technique="Coq proof of value-path agreement (VCD/FST/raw) + correspondence of three Coq value-path models vs real code + three-format file generators; corpus twins"),
+   technique="Coq proof of value-path agreement (VCD/FST/raw) and of tree agreement (VCD/FST) + correspondence of three Coq value-path models vs real code + three-format file generators; corpus twins"),
 }
 
 NOT_YET = {}
